@@ -361,6 +361,13 @@ func drive(args []string) int {
 		_ = os.Rename(tmp, filepath.Join(outRoot, "evidence", p.ID+".json"))
 	}
 
+	// every open finding listed for this property is announced on every run, reproduced or not
+	for i := range known.Findings {
+		f := &known.Findings[i]
+		if f.Status == "open" && f.Property == p.ID && !knownHit[f.Key] {
+			fmt.Printf("KNOWN-FINDING: property=%s %s (listed; not reproduced in this run)\n", p.ID, f.What)
+		}
+	}
 	wall := time.Since(start).Seconds()
 	if newViol > 0 {
 		fmt.Printf("RESULT property=%s tier=%s seed=%d verdict=VIOLATED new=%d evaluations=%d nontrivial=%d wall=%.1fs\n", p.ID, *tier, seed, newViol, evals, len(fps), wall)
